@@ -107,6 +107,8 @@ mutual
 def repiece : Node → List Piece
   | .leaf ps => ps
   | .fmt p cs => fmtPieces p (repieces cs)
+  | .gated true p cs => fmtPieces p (repieces cs)
+  | .gated false p _ => fmtPieces p []
 def repieces : List Node → List Piece
   | [] => []
   | n :: ns => repiece n ++ repieces ns
@@ -118,6 +120,12 @@ theorem encodeNode_feed : ∀ (n : Node) (w : W), encodeNode n w = w.feed (repie
   | .fmt p cs, w => by
     rw [encodeNode, repiece]
     exact chunkEncode_feed p (repieces cs) (encodeNodes cs) (fun w' => encodeNodes_feed cs w') w
+  | .gated true p cs, w => by
+    rw [encodeNode, repiece]
+    exact chunkEncode_feed p (repieces cs) (encodeNodes cs) (fun w' => encodeNodes_feed cs w') w
+  | .gated false p _, w => by
+    rw [encodeNode, repiece]
+    exact chunkEncode_feed p [] (fun w' => w') (fun _ => rfl) w
 theorem encodeNodes_feed : ∀ (ns : List Node) (w : W), encodeNodes ns w = w.feed (repieces ns)
   | [], w => by simp [encodeNodes, repieces, W.feed]
   | n :: ns, w => by
@@ -128,6 +136,8 @@ mutual
 theorem opsOf_repiece : ∀ (n : Node), opsOf (repiece n) = denote n
   | .leaf ps => by simp [repiece, denote]
   | .fmt p cs => by rw [repiece, denote, opsOf_fmtPieces, opsOf_repieces cs]
+  | .gated true p cs => by rw [repiece, denote, opsOf_fmtPieces, opsOf_repieces cs]
+  | .gated false p _ => by rw [repiece, denote, opsOf_fmtPieces]; rfl
 theorem opsOf_repieces : ∀ (ns : List Node), opsOf (repieces ns) = denotes ns
   | [] => by simp [repieces, denotes, opsOf]
   | n :: ns => by rw [repieces, denotes, opsOf_append, opsOf_repiece n, opsOf_repieces ns]
@@ -139,6 +149,12 @@ theorem denote_text_eq_spec : ∀ (n : Node), n.ordered = true → (denote n).te
   | .fmt p cs, h => by
     simp only [Node.ordered, Bool.and_eq_true] at h
     rw [denote, specText, codeFmtOps_text_eq_spec p _ h.1, denotes_text_eq_spec cs h.2]
+  | .gated true p cs, h => by
+    simp only [Node.ordered, Bool.and_eq_true] at h
+    rw [denote, specText, codeFmtOps_text_eq_spec p _ h.1, denotes_text_eq_spec cs h.2]
+  | .gated false p _, h => by
+    simp only [Node.ordered] at h
+    rw [denote, specText, codeFmtOps_text_eq_spec p _ h]; rfl
 theorem denotes_text_eq_spec : ∀ (ns : List Node), Node.orderedAll ns = true →
     (denotes ns).text = specTexts ns
   | [], _ => by simp [denotes, specTexts, Out.text]
